@@ -2195,3 +2195,40 @@ Proof.
   - eexists. split; vm_compute; reflexivity.
   - split; vm_compute; reflexivity.
 Qed.
+
+(* COST OF Url::make_relative (Proofs/C04_CostRel.v; model Model/MakeRelative.v; cost semantics of Model/Cost.v: rfind is a
+   reverse search, a split('/') iterator examines every byte of its text once, slice equality compares the lengths and
+   then at most the common length, push_str of x = nlen x).  The step counts follow the data flow of the model:
+     (1) the path part (two extract_path_filename, the two segment iterators, the skip loop over common segments, the
+         ".." loop, the copy loop, the filename rule) costs at most 9 |base path| + 6 |url path| + 26;
+     (2) the whole method (comparisons of cannot_be_a_base / scheme / host / port, the path part, the copies of query and
+         fragment) at most 12 |base| + 8 |url| + 35 in the lengths of the two serializations - linear, no product term:
+         every loop consumes its iterator;
+     (3) whenever the method returns a relative reference the accessors the count is defined from returned as well. *)
+From RU Require Proofs.C04_CostRel.
+Theorem C04_cost_make_relative : forall dbg b t,
+  (forall pb pt, C04_CostRel.mr_path_k pb pt <= 9 * nlen pb + 6 * nlen pt + 26)
+  /\ C04_CostRel.make_relative_k dbg b t <= 12 * nlen (ser b) + 8 * nlen (ser t) + 35
+  /\ (forall r, MakeRelative.make_relative dbg b t = Some (Some r) ->
+        exists sb st pb pt q f, scheme b = Some sb /\ scheme t = Some st /\ path b = Some pb /\ path t = Some pt
+          /\ query dbg t = Some q /\ fragment dbg t = Some f).
+Proof.
+  intros dbg b t. exact (conj C04_CostRel.mr_path_k_le (conj (C04_CostRel.make_relative_k_le dbg b t)
+        (C04_CostRel.make_relative_k_defined dbg b t))).
+Qed.
+Check C04_cost_make_relative : forall dbg b t,
+  (forall pb pt, C04_CostRel.mr_path_k pb pt <= 9 * nlen pb + 6 * nlen pt + 26)
+  /\ C04_CostRel.make_relative_k dbg b t <= 12 * nlen (ser b) + 8 * nlen (ser t) + 35
+  /\ (forall r, MakeRelative.make_relative dbg b t = Some (Some r) ->
+        exists sb st pb pt q f, scheme b = Some sb /\ scheme t = Some st /\ path b = Some pb /\ path t = Some pt
+          /\ query dbg t = Some q /\ fragment dbg t = Some f).
+Print Assumptions C04_cost_make_relative.
+
+(* http://h/a/b/c?x against http://h/a/d/e?q#f gives "../d/e?q#f" in 64 steps (48 for the path part) *)
+Example C04_cost_make_relative_instance :
+  exists b t, parse_url true toy_hp toy_hp toy_hd None None [104;116;116;112;58;47;47;104;47;97;47;98;47;99;63;120] = POk b
+    /\ parse_url true toy_hp toy_hp toy_hd None None [104;116;116;112;58;47;47;104;47;97;47;100;47;101;63;113;35;102] = POk t
+    /\ MakeRelative.make_relative true b t = Some (Some [46; 46; 47; 100; 47; 101; 63; 113; 35; 102])
+    /\ C04_CostRel.make_relative_k true b t = 64
+    /\ C04_CostRel.mr_path_k [47;97;47;98;47;99] [47;97;47;100;47;101] = 48.
+Proof. eexists. eexists. split; [vm_compute; reflexivity|]. split; [vm_compute; reflexivity|]. vm_compute. repeat split. Qed.
